@@ -444,3 +444,14 @@ func TestRegGuestLeaveAccepted(t *testing.T) {
 		{F: &aclgen.Forge{Author: 1, Contents: []aclgen.FContent{{Kind: "request_accept", Target: 4, Perm: aclgen.Admin, Ref: 0, Variant: 2}}}},
 	}}, run)
 }
+
+// found by the thorough tier: a batch that removes a guest and re-permissions it in the same record
+func TestRegRemoveThenRepermissionGuest(t *testing.T) {
+	outerT = t
+	vstat.One(t, prop, Case{Seed: 6, N: 9, Prelude: true, Steps: []Step{
+		{F: &aclgen.Forge{Author: 1, Contents: []aclgen.FContent{
+			{Kind: "account_remove", Target: 5, T2: 6, Perm: 3, Ref: -2, Variant: 17},
+			{Kind: "perm_changes", Target: 5, T2: 4, Perm: 4, Ref: 1, Variant: 11}}}},
+		{F: &aclgen.Forge{Author: 0, Contents: []aclgen.FContent{{Kind: "perm_change", Target: 6, Perm: aclgen.Writer}}}},
+	}}, run)
+}
